@@ -104,7 +104,7 @@ def run(pid, tier, seed, replay=None):
     # (1) every chunking of the short plain streams, on every channel
     plain = gen(chk, 'gen_plain', consts('LensTiny' if not thorough else 'LensSmall', False, 'GoodOnly'))
     for case in plain:
-        for ch in CHANNELS:
+        for ch in CHANNELS + ['recv']:
             add(ch, False, GOOD, case['lens'], chunks=case['chunks'])
     n_all_chunkings = len(plain)
     # (2) handshake: simulated chunkings with every validity assignment
@@ -123,6 +123,10 @@ def run(pid, tier, seed, replay=None):
         for c in singles + doubles:
             add(ch, False, GOOD, [2, 1], cuts=c)
         chk.counters[f'real_stream_bytes_{ch}'] = N
+        if ch == 'farm':
+            # the blocking reader (message.receive) gets the same real stream in the same segments
+            for c in singles + doubles:
+                add('recv', False, GOOD, [2, 1], cuts=c)
     # handshake: every single split of the second half (final packet + application bytes), all-good and each single bad bit
     Nh = n[('farm', True)] - n[('farm', 'hsA')] + 6
     hs_cuts = [c for c in cuts(chk, 'cuts_hs', Nh, 2 if thorough else 1)]
@@ -151,7 +155,7 @@ def run(pid, tier, seed, replay=None):
         'gpg is a stub whose verdicts are the validity bits; the TLS listeners are not reached (framing code is the same)',
         'a chunk cannot span the first and second handshake packet (the client needs the challenge first); the model allows it (superset)',
     ]
-    return chk.finish('every chunking of short plain streams x 3 channels; simulated chunkings of handshake streams x 32 validity assignments; real-length streams at every single and (sampled) double split; recorded after every chunk and validated by TLC')
+    return chk.finish('every chunking of short plain streams x 3 push channels (dataReceived) and the blocking reader (message.receive); simulated chunkings of handshake streams x 32 validity assignments; real-length streams at every single and (sampled) double split; recorded after every chunk and validated by TLC')
 
 
 if __name__ == '__main__':
